@@ -30,7 +30,7 @@ var registry = []*HarnessSpec{
 	{Prop: "C17", Name: "zzH17c", Pkg: pkgCrhttp, Tier: "quick", Bounds: "all four (prometheus, pprof) combinations"},
 	{Prop: "C17", Name: "zzH17a", Pkg: pkgCorerad, Tier: "quick", Unwind: 600, Bounds: "three interfaces (advertising with one stanza of every kind parsed by the real parser, monitoring, neither) in 3 orders; plugins prepared or never prepared; forwarding/autoconf per interface symbolic; lifetimes symbolic"},
 	{Prop: "C04", Name: "zzH17a", Pkg: pkgCorerad, Tier: "quick", Unwind: 600, Bounds: "metrics-scrape path: forwarding read per scrape, misconfiguration gauge iff not forwarding with a non-zero configured lifetime"},
-	{Prop: "C08", Name: "zzH08e", Pkg: pkgCorerad, Tier: "quick", MonoTime: true, NoNative: true, Explore: true, Sched: 3000, Bounds: "Advertiser.Run with all its real goroutines; a solicitation injected and the context cancelled back to back; goroutine schedules explored up to the budget"},
+	{Prop: "C08", Name: "zzH08e", Pkg: pkgCorerad, Tier: "quick", MonoTime: true, NoNative: true, Explore: true, Sched: 3000, SchedThorough: 60000, Bounds: "Advertiser.Run with all its real goroutines; a solicitation injected and the context cancelled back to back; goroutine schedules explored up to the budget"},
 	{Prop: "C08", Name: "zzH08d", Pkg: pkgCorerad, Tier: "quick", MonoTime: true, NoNative: true, Bounds: "Advertiser.Run with all its real goroutines over a scripted socket; stopped while idle / with a solicited response pending / with a solicited response in flight; terminate or reload"},
 	{Prop: "C08", Name: "zzH08b", Pkg: pkgCorerad, Tier: "quick", Bounds: "signalTask.Run for SIGINT / SIGTERM / SIGHUP with a cancel function that reads the recorded decision"},
 	{Prop: "C20", Name: "zzH08b", Pkg: pkgCorerad, Tier: "quick", Bounds: "signalTask.Run for SIGINT / SIGTERM / SIGHUP with a cancel function that reads the recorded decision"},
@@ -40,7 +40,7 @@ var registry = []*HarnessSpec{
 	{Prop: "C20", Name: "zzH08f", Pkg: pkgCorerad, Tier: "quick", Bounds: "Signals() and isTerminal for each of its elements"},
 	{Prop: "C08", Name: "zzH08f", Pkg: pkgCorerad, Tier: "quick", Bounds: "Signals() and isTerminal for each of its elements"},
 	{Prop: "C20", Name: "zzH20d", Pkg: pkgCorerad, Tier: "quick", Explore: true, Sched: 64, Race: true, Bounds: "signalTask.Run for SIGINT / SIGTERM / SIGHUP with one concurrent reader of the decision; lock discipline on terminator.term decided on every path and schedule; native validation under the Go race detector"},
-	{Prop: "C20", Name: "zzH20c", Pkg: pkgCorerad, Tier: "quick", Explore: true, NoNative: true, Sched: 4000, Params: map[string]int{"tasks": 2, "tasks@thorough": 3}, Bounds: "2 (3) stub tasks each with one of 5 behaviours; SIGINT / SIGTERM / SIGHUP / no signal delivered once everything is blocked; schedules explored up to the budget"},
+	{Prop: "C20", Name: "zzH20c", Pkg: pkgCorerad, Tier: "quick", Explore: true, NoNative: true, Sched: 4000, SchedThorough: 60000, Params: map[string]int{"tasks": 2, "tasks@thorough": 3}, Bounds: "2 (3) stub tasks each with one of 5 behaviours; SIGINT / SIGTERM / SIGHUP / no signal delivered once everything is blocked; schedules explored up to the budget"},
 	{Prop: "C07", Name: "zzH09b", Pkg: pkgCorerad, Tier: "quick", NoNative: true, Bounds: "Listen + handle over a scripted socket: a valid RS from any IPv6 source or ::, with or without the zone the socket layer attaches"},
 	{Prop: "C07", Name: "zzH06", Pkg: pkgCorerad, Tier: "quick", MonoTime: true, NoNative: true, Params: map[string]int{"events": 2, "events@thorough": 3}, Bounds: "scheduler: 2 (3) requests (all-nodes or arbitrary unicast sources, possibly repeated) at arbitrary instants: one task per solicitation, delay in [0,500ms), each closure sends to its own source"},
 	{Prop: "C09", Name: "zzH09b", Pkg: pkgCorerad, Tier: "quick", NoNative: true, Bounds: "Listen with its real goroutines over a scripted socket: one invalid message (any hop limit != 255) then one valid RS from any IPv6 source or ::, with or without zone; then cancellation"},
@@ -74,7 +74,7 @@ var registry = []*HarnessSpec{
 	{Prop: "C19", Name: "zzH19a", Pkg: pkgNetstate, Tier: "quick", Params: map[string]int{"subs": 2, "changes": 3, "subs@thorough": 3, "changes@thorough": 4}, Bounds: "2 (3) subscribers with any non-empty 7-bit mask on one of two interfaces; 3 (4) changes, each any non-zero 7-bit value, on either interface"},
 	{Prop: "C19", Name: "zzH19b", Pkg: pkgNetstate, Tier: "quick", Bounds: "10 matching undrained events"},
 	{Prop: "C19", Name: "zzH19c", Pkg: pkgNetstate, Tier: "quick", Params: map[string]int{"subs": 2, "subs@thorough": 3}, Bounds: "2 (3) subscribers, 0..2 notifications before watching ends"},
-	{Prop: "C19", Name: "zzH19d", Pkg: pkgNetstate, Tier: "quick", Explore: true, Sched: 64, Race: true, Bounds: "one early and one late subscriber; 2 notifications; the late Subscribe released at any of 4 points and scheduled at any later scheduling point (schedule budget 64); lock discipline on Watcher.m decided on every path; native validation under the Go race detector"},
+	{Prop: "C19", Name: "zzH19d", Pkg: pkgNetstate, Tier: "quick", Explore: true, Sched: 5000, Race: true, Bounds: "one early and one late subscriber; 2 notifications; the late Subscribe released at any of 4 points and scheduled at any later scheduling point (all schedules: the budget of 5000 is not reached); lock discipline on Watcher.m decided on every path; native validation under the Go race detector"},
 	{Prop: "C19", Name: "zzH19e", Pkg: pkgNetstate, Tier: "quick", Bounds: "every 8-bit operational state"},
 	{Prop: "C10", Name: "zzH10a", Pkg: pkgSystem, Tier: "quick", Unwind: 60, Bounds: "every input error class; DialFunc first succeeds at attempt 0..50 or never (loop unrolled to its 50 attempts)"},
 	{Prop: "C10", Name: "zzH10aCancel", Pkg: pkgSystem, Tier: "quick", Unwind: 60, Bounds: "cancellation during any of the first 4 waits, or none"},
